@@ -480,6 +480,14 @@ def pinned(ctx):
             _def('a', 'float', '3', [('m', 1)]),
             dict(k='inj', mode='def', indent=0, name='b', path='b', type='float', dim=None, src=None, query='a', slice=None, unit=cm)],
             main=[dict(k='source', name='r'), dict(k='imp', src='r', query='b', into='h', form='inline')]))),
+        (R.F_UNITDEF, dict(prog=dict(base=None, remote=None, extra=None, main=[
+            dict(k='unit', name='uk', text='3', unit=[('kg', 1)]), _def('c', 'float', '1', [('kg', 1)]),
+            dict(k='mod', path='c', type='float', text='1', unit=[('[uk]', 1)])]))),
+        (R.F_RESIDUE, dict(prog=dict(base=None, remote=None, extra=None, main=[
+            _def('m', 'float', items=[['1', '2'], ['3', '4']], dim=[2, 2], unit=cm),
+            dict(k='inj', mode='def', indent=0, name='h', path='h', type='float', dim=None, src=None, query='m',
+                 slice=[[1, 1], [0, 0]], unit=None),
+            dict(k='imp', src=None, query='h', into='i1', form='inline')]))),
         (R.F_MODSLICE, dict(prog=dict(base=None, remote=None, extra=None, main=[
             _def('arr', 'float', items=['1', '2', '3'], dim=[3], unit=cm), _def('b', 'float', '9', cm),
             dict(k='inj', mode='mod', path='b', type='float', src=None, query='arr', slice=[[1, 1]], unit=None)]))),
